@@ -1,11 +1,273 @@
 /-
-  C07 — property theorems only (placeholder until the refinement proof lands).
+  C07 — annotations: what the evaluator's compressed annotation record stands for, that a failed
+  subschema and `not` contribute nothing, and that `unevaluatedProperties` / `unevaluatedItems` are applied
+  to exactly the complement of the evaluated set.  Property theorems only (proofs: JSV/Proofs/Refine*.lean).
 -/
-import JSV.Model.Validate
+import JSV.Props.C01
 namespace JSV.C07
-open JSV Go
+open JSV Go GoVal Refine
 
+/-- with no fuel the evaluator makes no statement -/
 theorem validateFuel_zero (env : VEnv) (stack : List NodeId) (i : GoVal) (s : NodeId) :
     validateFuel env 0 stack i s = .fuel := rfl
+
+/-! ## representation lemmas of the compressed record -/
+
+theorem γ_merge_prop (a b : Anns) (k : String) : γprop (a.merge b) k = (γprop a k || γprop b k) :=
+  γprop_merge a b k
+
+theorem γ_merge_item (a b : Anns) (i : Nat) : γitem (a.merge b) i = (γitem a i || γitem b i) :=
+  γitem_merge a b i
+
+theorem γ_noteEndIndex (a : Anns) (e i : Nat) : γitem (a.noteEndIndex e) i = (γitem a i || decide (i < e)) :=
+  γitem_noteEndIndex a e i
+
+theorem γ_noteEndIndex_prop (a : Anns) (e : Nat) (k : String) : γprop (a.noteEndIndex e) k = γprop a k :=
+  γprop_noteEndIndex a e k
+
+theorem γ_noteIndex (a : Anns) (i' i : Nat) : γitem (a.noteIndex i') i = (γitem a i || decide (i = i')) :=
+  γitem_noteIndex a i' i
+
+theorem γ_noteIndex_prop (a : Anns) (i' : Nat) (k : String) : γprop (a.noteIndex i') k = γprop a k := rfl
+
+theorem γ_noteProperties (a : Anns) (ps : List String) (k : String) :
+    γprop (a.noteProperties ps) k = (γprop a k || ps.contains k) :=
+  γprop_noteProperties a ps k
+
+theorem γ_noteProperties_item (a : Anns) (ps : List String) (i : Nat) :
+    γitem (a.noteProperties ps) i = γitem a i := rfl
+
+theorem γ_empty (k : String) (i : Nat) : γprop {} k = false ∧ γitem {} i = false :=
+  ⟨γprop_empty k, γitem_empty i⟩
+
+/-! ## the annotations are exact -/
+
+/-- whenever the Spec says valid with evaluated sets `ev`, the evaluator returns annotations standing for
+    exactly `ev` on the properties / items of the instance -/
+theorem annotations_exact (env : VEnv) (hwf : EnvWF env) (hst : StoreWF env.st) (fuel : Nat) (s : NodeId) (j : Json)
+    (hj : Json.WF j = true) (ev : Spec.Ev)
+    (h : Spec.evalFuel (specEnvOf env) fuel [] s j = some (some ev)) :
+    ∃ a, Go.validateFuel env fuel [] (GoVal.ofJson j) s = .ok a ∧
+      (∀ k, k ∈ keysOf j → γprop a k = ev.props.contains k) ∧
+      (∀ i, i < lenOf j → γitem a i = ev.items.contains i) := by
+  have := C01.validate_refines_spec_root env hwf hst fuel s j hj
+  rw [h] at this
+  exact this
+
+/-- and an invalid schema yields an error: no annotations at all -/
+theorem invalid_no_annotations (env : VEnv) (hwf : EnvWF env) (hst : StoreWF env.st) (fuel : Nat) (s : NodeId)
+    (j : Json) (hj : Json.WF j = true) (h : Spec.evalFuel (specEnvOf env) fuel [] s j = some none) :
+    Go.validateFuel env fuel [] (GoVal.ofJson j) s = .err := by
+  have := C01.validate_refines_spec_root env hwf hst fuel s j hj
+  rw [h] at this
+  exact this
+
+/-! ## `not` and failed subschemas contribute nothing -/
+
+/-- Spec: `not` evaluates nothing -/
+theorem not_contributes_nothing (sub : NodeId → Json → Spec.Out) (n : Node) (j : Json) (ev : Spec.Ev)
+    (h : Spec.kwNot sub n j = some (some ev)) : ev.props = [] ∧ ev.items = [] := by
+  unfold Spec.kwNot at h
+  cases hn : n.not with
+  | none => rw [hn] at h; simp only [Option.some.injEq] at h; subst h; exact ⟨rfl, rfl⟩
+  | some t =>
+    rw [hn] at h
+    simp only [Option.map_eq_some_iff] at h
+    obtain ⟨r, _, hr⟩ := h
+    split at hr
+    · cases hr
+    · simp only [Option.some.injEq] at hr; subst hr; exact ⟨rfl, rfl⟩
+
+/-- model: the `not` block never changes the annotations -/
+theorem not_block_keeps_annotations (rec : Go.Rec) (stack : List NodeId) (n : Node) (inst : GoVal) (anns a : Anns)
+    (h : bNot rec stack n inst anns = .ok a) : a = anns := by
+  unfold bNot at h
+  cases hn : n.not with
+  | none => rw [hn] at h; exact (Res.ok.inj h).symm
+  | some s =>
+    rw [hn] at h
+    simp only [tryValid] at h
+    cases hr : rec stack inst s with
+    | fuel => rw [hr] at h; simp at h
+    | panic => rw [hr] at h; simp at h
+    | err => rw [hr] at h; simp only [Res.bind_ok, Bool.false_eq_true, if_false] at h; exact (Res.ok.inj h).symm
+    | ok a' => rw [hr] at h; simp at h
+
+/-- Spec: an invalid branch adds nothing to the union over the valid branches (anyOf / oneOf) -/
+theorem failed_subschema_contributes_nothing (rs1 rs2 : List Spec.R) :
+    Spec.validUnion (rs1 ++ none :: rs2) = Spec.validUnion (rs1 ++ rs2) := by
+  simp [Spec.validUnion]
+
+/-- Spec: in a conjunction (allOf, the keywords of one schema object) an invalid member makes the whole
+    invalid, so nothing is collected at all -/
+theorem failed_conjunct_no_result (rs1 rs2 : List Spec.R) : Spec.conj (rs1 ++ none :: rs2) = none := by
+  simp [Spec.conj]
+
+/-- model: `valid(s, anns)` on a failing subschema leaves the annotations untouched -/
+theorem failed_tryValid_keeps_annotations (rec : Go.Rec) (stack : List NodeId) (inst : GoVal) (s : NodeId)
+    (anns : Anns) (c : Bool) (h : rec stack inst s = .err) :
+    tryValid rec stack inst s anns c = .ok (false, anns) := by
+  unfold tryValid; rw [h]
+
+/-- model: an anyOf branch that fails is skipped without touching the annotations -/
+theorem anyOf_failed_branch (rec : Go.Rec) (stack : List NodeId) (inst : GoVal) (s : NodeId) (ss : List NodeId)
+    (anns : Anns) (nerr : Nat) (h : rec stack inst s = .err) :
+    anyOfLoop rec stack inst (s :: ss) anns nerr = anyOfLoop rec stack inst ss anns (nerr + 1) := by
+  simp [anyOfLoop, tryValid, h]
+
+/-- through the refinement: a branch the Spec calls invalid is such a failing branch of the model -/
+theorem spec_invalid_branch_keeps_annotations (env : VEnv) (hwf : EnvWF env) (hst : StoreWF env.st) (fuel : Nat)
+    (stack : List NodeId) (hstack : ∀ x, x ∈ stack → (env.info? x).isSome = true) (s : NodeId) (j : Json)
+    (hj : Json.WF j = true) (h : Spec.evalFuel (specEnvOf env) fuel stack s j = some none) (anns : Anns) (c : Bool) :
+    tryValid (validateFuel env fuel) stack (GoVal.ofJson j) s anns c = .ok (false, anns) := by
+  apply failed_tryValid_keeps_annotations
+  have := C01.validate_refines_spec env hwf hst fuel stack hstack s j hj
+  rw [h] at this
+  exact this
+
+/-! ## unevaluatedProperties / unevaluatedItems see exactly the complement -/
+
+/-- Spec: the subschema is applied to the values of exactly the keys outside `ev.props` -/
+theorem unevaluatedProps_spec (sub : NodeId → Json → Spec.Out) (n : Node) (kvs : List (String × Json)) (ev : Spec.Ev)
+    (t : NodeId) (ht : n.unevaluatedProperties = some t) :
+    Spec.kwUnevaluatedProps sub n (.obj kvs) ev =
+      (Spec.sequence ((kvs.filter fun p => !ev.props.contains p.1).map fun p => sub t p.2)).map fun rs =>
+        if Spec.allHold rs then some { props := kvs.map (·.1) } else none := by
+  unfold Spec.kwUnevaluatedProps
+  simp only [ht]
+
+/-- model, given annotations that stand for `ev`: the loop calls the subschema on exactly those values, in order -/
+theorem unevaluatedProps_exact (rec : Go.Rec) (stack : List NodeId) (u : NodeId) (anns : Anns)
+    (kvs : List (String × Json)) (ev : Spec.Ev) (hm : AnnsMatch (.obj kvs) anns ev)
+    (hall : anns.allProperties = false) :
+    unevalPropsLoop rec stack u anns (GoVal.ofJsonObj kvs) =
+      callLoop rec stack ((kvs.filter fun p => !ev.props.contains p.1).map fun p => (u, wrap p.2)) := by
+  rw [unevalPropsLoop_eq, List.map_map]
+  have : (kvs.filter fun p => !anns.evaluatedProperties.contains p.1)
+      = kvs.filter fun p => !ev.props.contains p.1 := by
+    apply List.filter_congr
+    intro p hp
+    have := hm.1 p.1 (List.mem_map.2 ⟨p, hp, rfl⟩)
+    rw [← this]
+    simp [γprop, hall]
+  rw [this]
+  rfl
+
+/-- when `allProperties` is already set nothing is left: every property of the instance is evaluated -/
+theorem unevaluatedProps_none_left (anns : Anns) (kvs : List (String × Json)) (ev : Spec.Ev)
+    (hm : AnnsMatch (.obj kvs) anns ev) (hall : anns.allProperties = true) :
+    (kvs.filter fun p => !ev.props.contains p.1) = [] := by
+  rw [List.filter_eq_nil_iff]
+  intro p hp
+  have := hm.1 p.1 (List.mem_map.2 ⟨p, hp, rfl⟩)
+  rw [← this]
+  simp [γprop, hall]
+
+/-- the same for unevaluatedItems -/
+theorem unevaluatedItems_exact (rec : Go.Rec) (stack : List NodeId) (u : NodeId) (anns : Anns)
+    (xs : List Json) (ev : Spec.Ev) (hm : AnnsMatch (.arr xs) anns ev) (hall : anns.allItems = false) :
+    unevalItemsLoop rec stack u anns (GoVal.ofJsonList xs) 0 =
+      callLoop rec stack (((xs.zip (List.range' 0 xs.length)).filter fun p => !ev.items.contains p.2).map
+        fun p => (u, wrap p.1)) := by
+  rw [ofJsonList_eq_wrap, unevalItemsLoop_eq, List.map_map]
+  have : ((xs.zip (List.range' 0 xs.length)).filter fun p =>
+        !(decide (p.2 < anns.endIndex) || anns.evaluatedIndexes.contains p.2))
+      = (xs.zip (List.range' 0 xs.length)).filter fun p => !ev.items.contains p.2 := by
+    apply List.filter_congr
+    intro p hp
+    have := hm.2 p.2 (mem_zip_range'_lt hp).2
+    rw [← this]
+    simp [γitem, hall]
+  rw [this]
+  rfl
+
+/-- a valid `unevaluatedProperties` marks every property of the instance as evaluated -/
+theorem unevaluatedProps_marks_all (sub : NodeId → Json → Spec.Out) (n : Node) (kvs : List (String × Json))
+    (ev e : Spec.Ev) (t : NodeId) (ht : n.unevaluatedProperties = some t)
+    (h : Spec.kwUnevaluatedProps sub n (.obj kvs) ev = some (some e)) :
+    ∀ k, k ∈ kvs.map (·.1) → e.props.contains k = true := by
+  rw [unevaluatedProps_spec sub n kvs ev t ht] at h
+  simp only [Option.map_eq_some_iff] at h
+  obtain ⟨rs, _, hr⟩ := h
+  split at hr
+  · simp only [Option.some.injEq] at hr
+    subst hr
+    intro k hk
+    simpa using hk
+  · cases hr
+
+/-! ## The hypotheses are satisfiable (environment of C01: allOf + properties + unevaluatedProperties:false) -/
+
+open C01 in
+/-- the Spec's answer on the valid instance: `a` is evaluated (by the allOf branch, and by unevaluatedProperties) -/
+example : Spec.evalFuel (specEnvOf exEnv) 3 [] 0 exGood = some (some { props := ["a", "a"], items := [] }) := by rfl
+
+open C01 in
+/-- `annotations_exact` applied -/
+example : ∃ a, Go.validateFuel exEnv 3 [] (GoVal.ofJson exGood) 0 = .ok a ∧
+    (∀ k, k ∈ keysOf exGood → γprop a k = ["a", "a"].contains k) ∧
+    (∀ i, i < lenOf exGood → γitem a i = ([] : List Nat).contains i) :=
+  annotations_exact exEnv exEnv_wf exEnv_store 3 0 exGood (by decide) _ (by rfl)
+
+open C01 in
+/-- `invalid_no_annotations` applied -/
+example : Go.validateFuel exEnv 3 [] (GoVal.ofJson exBad) 0 = .err :=
+  invalid_no_annotations exEnv exEnv_wf exEnv_store 3 0 exBad (by decide) (by rfl)
+
+open C01 in
+/-- the `false` subschema (`{"not":{}}`) on the value of `b`: `not` fails, the Spec says invalid, and
+    `spec_invalid_branch_keeps_annotations` applies (stack = the root, which has a record) -/
+example (anns : Anns) :
+    tryValid (validateFuel exEnv 2) [0] (GoVal.ofJson .null) 3 anns true = .ok (false, anns) :=
+  spec_invalid_branch_keeps_annotations exEnv exEnv_wf exEnv_store 2 [0] (by decide) 3 .null (by decide)
+    (by rfl) anns true
+
+open C01 in
+/-- `not_contributes_nothing`: node 3 is `{"not":{}}`; on any instance the inner `{}` is valid so `not` fails;
+    node 4 (`{}`) has no `not`, the keyword evaluates to the empty set -/
+example : Spec.kwNot (Spec.evalFuel (specEnvOf exEnv) 1 [4]) {} .null = some (some {}) := by rfl
+example : ({} : Spec.Ev).props = [] ∧ ({} : Spec.Ev).items = [] :=
+  not_contributes_nothing (fun _ _ => none) {} .null {} (by rfl)
+
+/-- `not_block_keeps_annotations`: a `not` whose subschema fails -/
+example : bNot (fun _ _ _ => .err) [] { not := some 7 } .invalid { allItems := true } = .ok { allItems := true } := by
+  rfl
+example : ({ allItems := true } : Anns) = { allItems := true } :=
+  not_block_keeps_annotations (fun _ _ _ => .err) [] { not := some 7 } .invalid { allItems := true } _ (by rfl)
+
+/-- `failed_subschema_contributes_nothing` on three branches, the middle one invalid -/
+example : Spec.validUnion [some { props := ["a"] }, none, some { props := ["b"] }]
+    = Spec.validUnion [some { props := ["a"] }, some { props := ["b"] }] :=
+  failed_subschema_contributes_nothing [some { props := ["a"] }] [some { props := ["b"] }]
+
+/-- `unevaluatedProps_exact`: with `a` evaluated, the subschema is applied to the value of `b` only -/
+example (rec : Go.Rec) :
+    unevalPropsLoop rec [0] 3 { evaluatedProperties := ["a"] } (GoVal.ofJsonObj [("a", .str "x"), ("b", .null)])
+      = callLoop rec [0] [(3, wrap .null)] :=
+  unevaluatedProps_exact rec [0] 3 { evaluatedProperties := ["a"] } [("a", .str "x"), ("b", .null)]
+    { props := ["a"] } (by constructor <;> intros <;> simp [γprop, γitem]) rfl
+
+/-- `unevaluatedItems_exact`: prefix of length 1 evaluated, index 2 noted by `contains` -/
+example (rec : Go.Rec) :
+    unevalItemsLoop rec [0] 3 { endIndex := 1, evaluatedIndexes := [2] }
+        (GoVal.ofJsonList [.null, .bool true, .str "x"]) 0
+      = callLoop rec [0] [(3, wrap (.bool true))] :=
+  unevaluatedItems_exact rec [0] 3 { endIndex := 1, evaluatedIndexes := [2] } [.null, .bool true, .str "x"]
+    { items := [0, 2] }
+    (by
+      constructor
+      · intros; simp [γprop]
+      · intro i hi
+        have : i < 3 := hi
+        match i, this with
+        | 0, _ => decide
+        | 1, _ => decide
+        | 2, _ => decide) rfl
+
+/-- `γ_merge`, `γ_noteEndIndex`, `γ_noteIndex`, `γ_noteProperties` on concrete records -/
+example : γitem (({ endIndex := 2 } : Anns).merge { evaluatedIndexes := [5] }) 5 = true := by decide
+example : γitem (({} : Anns).noteEndIndex 3) 2 = true ∧ γitem (({} : Anns).noteEndIndex 3) 3 = false := by decide
+example : γprop (({} : Anns).noteProperties ["a"]) "a" = true ∧ γprop (({} : Anns).noteProperties ["a"]) "b" = false := by
+  decide
 
 end JSV.C07
